@@ -86,6 +86,17 @@ def handleMonoOp : List String → String
         | none => "bad-model"
   | _ => "bad-op"
 
+/-- `monolabel <type> <type>`: do two instantiations of one generic function at these two types get
+    two labels (`distinct`) or one (`same`)? -/
+def handleMonoLabel : List String → String
+  | [a, b] =>
+    match parseTyS a, parseTyS b with
+    | some t1, some t2 =>
+      let ls := twoLabels 0 t1 t2
+      if ls.1 = ls.2 then "same" else "distinct"
+    | _, _ => "bad-op"
+  | _ => "bad-op"
+
 def handleMono : List String → String
   | [sig, inst, msig, callty, impls, ifaceM, implM, idx] =>
     let implTys := (if impls = "-" then [] else impls.splitOn ";").mapM parseTyS
